@@ -29,6 +29,8 @@ type hdGen struct {
 	next  int
 	rsOf  map[int]int // conn -> nc session id in use
 	rsBackend map[int]int
+	gated bool
+	mcuTok int
 }
 
 func (g *hdGen) pickConn() int {
@@ -136,6 +138,25 @@ func (g *hdGen) op() hdOp {
 				return hdOp{K: "hello", C: c, Ht: "internal", B: bk, Tok: tok, Feat: feat}
 			}
 			return hdOp{K: "hello", C: c, Ht: "resume", Id: g.idref(true)}
+		}
+	}
+	if g.opts.media && r.chance(30) {
+		switch r.intn(10) {
+		case 0, 1, 2, 3:
+			return hdOp{K: "media", C: c, Mk: "offer", Stream: pick(r, []string{"video", "video", "screen", "audio"}), Media: 1 + r.intn(3),
+				To: &hdRecipient{T: "session", Id: &hdIdRef{T: "pub", C: c}}}
+		case 4, 5, 6:
+			return hdOp{K: "media", C: c, Mk: "requestoffer", Stream: pick(r, []string{"video", "screen"}),
+				To: &hdRecipient{T: "session", Id: &hdIdRef{T: "pub", C: g.pickConn()}}}
+		case 7:
+			return hdOp{K: "media", C: c, Mk: "candidate", Stream: pick(r, []string{"video", "screen"}),
+				To: &hdRecipient{T: "session", Id: &hdIdRef{T: "pub", C: g.pickConn()}}}
+		default:
+			if g.gated {
+				g.mcuTok++
+				return hdOp{K: "mcudone", Tok: 0, Res: pick(r, []string{"ok", "ok", "ok", "fail"})}
+			}
+			return hdOp{K: "api", B: b, SignAs: b, R: 1 + r.intn(3), Api: "incallall", InCall: pick(r, []int{0, 1, 7})}
 		}
 	}
 	x := r.intn(100)
@@ -293,6 +314,10 @@ func (g *hdGen) removeConn(c int) {
 func hdGenCase(r *vrng, id int, opts hdGenOpts, n int) *hdCase {
 	g := &hdGen{r: r, opts: opts, auth: map[int]int{}, intern: map[int]bool{}, rsOf: map[int]int{}, rsBackend: map[int]int{}}
 	c := &hdCase{Id: id, Mode: 1, Backends: []hdBackendCfg{{}, {}}}
+	if opts.media && r.chance(40) {
+		c.Gated = true
+		g.gated = true
+	}
 	if r.chance(25) {
 		c.Backends[0].Limit = 1 + r.intn(2)
 	}
@@ -335,7 +360,7 @@ func TestVerifHub(t *testing.T) {
 	} else {
 		for i := 0; i < n; i++ {
 			r := newVrng(env.seed, uint64(i))
-			opts := hdGenOpts{api: true, internal: i%2 == 1}
+			opts := hdGenOpts{api: true, internal: i%2 == 1, media: i%3 == 0}
 			cases = append(cases, hdGenCase(r, i, opts, 12+r.intn(28)))
 		}
 	}
